@@ -170,6 +170,12 @@ func c11Run(r *vt.Run, c c11Case) (canon string) {
 				if h1.Up && h1.HasSource {
 					h1.IORunning, h1.IOErrno, h1.IOError = false, 13114, "Got fatal error 1236 from source when reading data from binary log"
 				}
+			case "h1LosesReplConfig":
+				// its replication configuration is gone (data directory restored from a backup, an operator's
+				// RESET REPLICA ALL): from now on it looks like a master
+				if h.MasterKey() != "h1" {
+					h1.HasSource, h1.Source, h1.IORunning, h1.SQLRunning = false, "", false, false
+				}
 			case "h1Writable":
 				if h1.Up {
 					h1.ReadOnly, h1.SuperRO = false, false // an operator (or a stuck client) left it writable
@@ -259,5 +265,13 @@ func checkC11(r *vt.Run) {
 	vBFS(r, "marked|", after, depth, en2, func(hist []string) string {
 		return runner(append(append([]string(nil), prefix...), hist...))
 	})
+	// and from a state in which h1, an ordinary replica of the new master h2, has been down long enough
+	// to be dropped from the published list
+	prefix3 := []string{"fileTo2", "mgrTick", "h1Recovery", "mgrTick", "h1Dies", "mgrTick", "adv61", "mgrTick"}
+	after3 := []string{"mgrTick", "h1Recovery", "h1Starts", "h1LosesReplConfig", "h1Unreplicated", "writeMaster", "adv5"}
+	vBFS(r, "dropped|", after3, depth, en2, func(hist []string) string {
+		return runner(append(append([]string(nil), prefix3...), hist...))
+	})
+	r.Bound("third_initial_state", "h1 switched away from, clean replica of h2, then down and dropped from the list (prefix "+strings.Join(prefix3, ",")+")")
 	r.Bound("second_initial_state", "h1 failed over, returned, marked replica of h2 (prefix "+strings.Join(prefix, ",")+")")
 }
